@@ -123,6 +123,7 @@ type e1 struct {
 	faultStep  int
 	stalled    []*Endpoint
 	byz        bool
+	ctl        []*ctlProxy
 	own        map[string]bool // oracle names owned by the property under check
 	enc        rawEnc
 	phase      string
@@ -207,6 +208,23 @@ func (x *e1) setup() {
 		} else if e == x.sep {
 			x.monS.Write(p)
 		}
+	}
+	switch x.spec.Prop {
+	case "C18":
+		x.monC.KeepRaw, x.monS.KeepRaw = true, true
+		if x.ch.Bool("cfg", 0.5) {
+			pc, ps := &ctlProxy{x: x}, &ctlProxy{x: x}
+			x.ctl = []*ctlProxy{pc, ps}
+			x.net.Mutate = func(from *Endpoint, p []byte) []byte {
+				if from == x.cep {
+					return pc.mutate(from, p)
+				}
+				return ps.mutate(from, p)
+			}
+		}
+	case "C13":
+		bp := &byzProxy{x: x, Fired: map[string]int{}, dead: map[*Endpoint]bool{}}
+		x.net.Mutate = bp.mutate
 	}
 	for ep, fs := range x.prog.IOFaults {
 		switch ep {
